@@ -53,7 +53,7 @@ def gen_cases(rng, tier):
     cases = []
     sizes = list(range(0, 71)) + [95, 96, 97, 127, 128, 129, 255, 256, 257, 1023, 1024, 1500]
     if tier == "thorough":
-        sizes += list(range(71, 200)) + [4095, 4096, 4097, 65535, 65536]
+        sizes += list(range(71, 200)) + [2047, 2048, 2049, 4095, 4096, 4097]      # the extracted model is quadratic in the size: larger sizes only add time
     def mk(fn, size, nops, c):
         if fn in (1, 4, 5, 6, 7):
             nops = 1
